@@ -107,10 +107,11 @@ namespace TAO_PEGTL_NAMESPACE
          template< typename Rule, typename ParseInput, typename... States >
          void raise( const ParseInput& /*unused*/, States&&... /*unused*/ )
          {
+            // The type named by raise< T > need not be a rule of the grammar, so it may have no entry yet.
             const auto name = demangle< Rule >();
-            ++result.at( name ).raise;
+            ++result[ name ].raise;
             if( !stack.empty() ) {
-               ++result.at( stack.back() ).branches.at( name ).raise;
+               ++result.at( stack.back() ).branches[ name ].raise;
             }
          }
 
